@@ -46,6 +46,7 @@ type writeRec struct {
 
 type Exec struct {
 	letSeq int
+	staleInv []string // loop invariant conjuncts ignored because they could not be evaluated
 	expandQ bool // expand constant-range quantifiers in goals (package initializers)
 	storeChain map[string]storeRec // named array term -> the store that produced it (constant-index reads fold through it)
 	nogrowHit map[int]bool
